@@ -51,19 +51,21 @@ impl CncDir {
 
     pub fn apply(&mut self, s: &Snap) {
         let path = self.path();
+        let tmp = self.dir.join("cnc.dat.new");
+        let mut publish = false;
         if s.f < 0 {
             if self.cur_len >= 0 {
                 let _ = std::fs::remove_file(&path);
             }
             self.cur_len = -1;
         } else if self.cur_len != s.f {
-            if self.cur_len >= 0 {
-                let _ = std::fs::remove_file(&path);
-            }
-            let f = OpenOptions::new().read(true).write(true).create(true).truncate(true).open(&path).expect("create cnc");
+            // a new generation is prepared under another name and renamed over cnc.dat once its words are written:
+            // the client never sees "no file" or a half-written file in between
+            let f = OpenOptions::new().read(true).write(true).create(true).truncate(true).open(&tmp).expect("create cnc");
             f.set_len(s.f as u64).expect("set_len");
             self.generations.push((f, s.f));
             self.cur_len = s.f;
+            publish = true;
         }
         let cap = s.l as i64 - TRAILER;
         if cap > 0 && cap & (cap - 1) == 0 && !self.valid_td.contains(&(s.l as i64)) {
@@ -81,6 +83,9 @@ impl CncDir {
                     f.write_at(&s.h.to_le_bytes(), pos as u64).expect("write heartbeat");
                 }
             }
+        }
+        if publish {
+            std::fs::rename(&tmp, &path).expect("publish cnc");
         }
     }
 
